@@ -17,6 +17,7 @@ pub mod c13;
 pub mod c17;
 pub mod c18;
 pub mod c20;
+pub mod extra;
 
 pub fn registry() -> Vec<&'static macros::Entry> {
     let mut v = Vec::new();
@@ -31,5 +32,6 @@ pub fn registry() -> Vec<&'static macros::Entry> {
     v.extend(c17::registry());
     v.extend(c18::registry());
     v.extend(c20::registry());
+    v.extend(extra::registry());
     v
 }
